@@ -22,24 +22,24 @@
 #include <csignal>
 #include <unistd.h>
 #include <sys/wait.h>
+#include <cstring>
+#include "watchdog.h"
 
 static const uint64_t STOP = ~0ULL;
 static uint64_t item(int p, uint64_t seq) { return ((uint64_t)p << 40) | seq; }
 static std::atomic<uint64_t> *g_sent_probe = nullptr, *g_recvd_probe = nullptr;
-static long alarm_seen = -1; static int alarm_ticks = 0;
-// every 10 s: no progress since the last tick = stuck (the in-program watchdog cannot run if its own vCPU is stuck);
-// still progressing after 300 s = the machine is too loaded to judge (result slow: inconclusive, not a violation)
-static void on_alarm(int) {
-    long p = (long)(g_sent_probe ? g_sent_probe->load() + g_recvd_probe->load() : 0);
-    if (p == alarm_seen) {  printf("stalled no progress for 10 s of real time (progress=%ld)\nresult hung\n", p); fflush(stdout); _exit(0); }
-    alarm_seen = p;
-    if (++alarm_ticks >= 30) {  printf("result slow\n"); fflush(stdout); _exit(0); }
-    alarm(10);
+// hang / slow verdicts: watchdog.h (no progress in 2 windows of 10 s in which the machine ran every thread = hung - the in-program watchdog cannot
+// run if its own vCPU is stuck; no verdict after 300 s = the machine is too loaded to judge: result slow, inconclusive, not a violation)
+static long wd_progress() { return (long)(g_sent_probe ? g_sent_probe->load() + g_recvd_probe->load() : 0); }
+static void on_verdict(const char* result) {
+    wd::print_diag();
+    if (!strcmp(result, "result hung")) printf("stalled no progress for 20 s of real time in which every thread ran or slept voluntarily (progress=%ld)\n", wd_progress());
+    printf("%s\n", result); fflush(stdout); _exit(0);
 }
 static void on_segv(int s) { printf("result crashed signal=%d\n", s); fflush(stdout); _exit(0); }
 
 static int run_program(const std::vector<std::string>& lines) {
-    signal(SIGSEGV, on_segv); signal(SIGABRT, on_segv); signal(SIGALRM, on_alarm); alarm(10);
+    signal(SIGSEGV, on_segv); signal(SIGABRT, on_segv); wd::start(wd_progress, on_verdict);
     set_log_output(log_output_null);
     size_t cap = 1; int P = 1, Cn = 1; uint64_t M = 1000, gap = 0; std::string endmode = "close";
     for (auto& l : lines) { std::istringstream is(l); std::string w; is >> w; if (w == "chan") { is >> cap >> P >> Cn >> M >> gap >> endmode; printf("%s\n", l.c_str()); } }
@@ -71,6 +71,7 @@ static int run_program(const std::vector<std::string>& lines) {
         uint64_t s = sent.load(), r = recvd.load();
         if (s == ls && r == lr) stalled++; else stalled = 0;
         ls = s; lr = r;
+        if (stalled >= 30 && !wd::confirm_stall(3)) stalled = 0;      // progress resumed, or the machine did not run some thread: not the channel's stall
         if (stalled >= 30) {
             for (int p = 0; p < P; ++p) printf("produced %d %lu\n", p, (unsigned long)sent_ok[p]);
             printf("stalled sent=%lu received=%lu size=%zu capacity=%zu senders_done=%d receivers_done=%d closed=%d\n", (unsigned long)s, (unsigned long)r, ch->size(), cap, sdone.load(), rdone.load(), (int)ch->is_closed());
